@@ -123,6 +123,11 @@ def content(rng, i):
     mid = 1000 * (i % 2000)
     # build per-channel frame lists, then interleave them at frame granularity
     fullsize = rng.random() < 0.3
+    # one message larger than a megabyte (9 and more full-size body frames; also in 64 KiB frames, one of which
+    # ends exactly on the 1 MiB mark)
+    big = i % 16 == 5
+    if big:
+        fullsize = False
     per = {}
     for h in hs:
         fl = []
@@ -130,6 +135,11 @@ def content(rng, i):
             mid += 1
             ln = rng.choice([0, 1, 2, 5, 64, 1000, 5000])
             chunks = partition(rng, ln)
+            if big:
+                big = False
+                ln = rng.choice([1048577, 1048576 + 131064, 2 * 1048576, 3 * 1048576 + 17])
+                csize = rng.choice([131064, 65536])
+                chunks = [csize] * (ln // csize) + ([ln % csize] if ln % csize else [])
             if fullsize and rng.random() < 0.6:
                 # body frames as large as the negotiated frame_max (4096) allows, as a broker cuts them
                 ln = rng.choice([4088, 8176, 8181, 12264])
@@ -180,6 +190,34 @@ def content(rng, i):
     if fullsize:
         cfg["tune"] = [0, 4096, 0]
     return {"kind": "content", "cfg": cfg, "steps": steps}
+
+
+def bigframe_seg(rng, i):
+    """Frames close to the negotiated frame_max (131072) under read segmentations that stop (short read or
+    would-block) at every stage of such a frame: in its header, after 4096 bytes, half-way, just before its end.
+    The frames acted on must be the same as when the stream arrives in one piece."""
+    steps, ids = opens(1, [1 + i % 7])
+    steps.append({"do": "consume", "h": "A", "as": "cA"})
+    mid = 1000 * (i % 2000)
+    sizes = [rng.choice([66000, 70000, 90000, 100000, 131064]) for _ in range(rng.randrange(1, 4))]
+    frames = []
+    for fsz in sizes:
+        mid += 1
+        ln = fsz + rng.choice([0, 0, 5, 40000])
+        chunks = [fsz] + ([ln - fsz] if ln > fsz else [])
+        frames += [{"k": "deliver_m", "ch": ids["A"], "tag": "cA", "mid": mid}, {"k": "header", "ch": ids["A"], "mid": mid, "size": ln}]
+        frames += [{"k": "body", "ch": ids["A"], "mid": mid, "len": x} for x in chunks]
+    steps.append(srv(*frames))
+    steps.append({"do": "sync"})
+    steps.append(op("A", "qos"))
+    steps.append({"do": "drain", "c": "cA"})
+    steps.append({"do": "closeconn"})
+    cycles = [[], [90000, 0], [60000, 0], [4096, 100000, 0], [130000, 0], [3, 0, 4093, 0, 64000, 0], [8192, 0],
+              [65536, 0, 1, 0], [4096, 0, 95000, 0, 20000, 0], [50000, 0, 50000, 0, 31000, 0]]
+    cfg = {}
+    if cycles[i % len(cycles)]:
+        cfg["read_cycle"] = cycles[i % len(cycles)]
+    return {"kind": "bigframe-seg", "cfg": cfg, "steps": steps}
 
 
 # --------------------------------------------------------------------------- C11
@@ -240,6 +278,11 @@ def consumer(rng, i):
             else:
                 steps.append(srv({"k": "cancel", "ch": ch, "tag": c, "nowait": nowait}))
                 steps.append({"do": "sync"})
+                if rng.random() < 0.6:
+                    # the consumer's queue ends behind its terminal message (read it to the end while the channel
+                    # lives on; the call before it makes sure the I/O thread is past the cancel)
+                    steps.append(op(h, "qos"))
+                    steps.append({"do": "drain", "c": c})
                 if r2 < 0.6:
                     # the application cancels / drops a consumer the server has already cancelled
                     steps.append({"do": rng.choice(["cancel", "dropc"]), "h": h, "c": c, "panic": rng.random() < 0.3})
@@ -594,8 +637,13 @@ def chanclose(rng, i):
     for h in inflight:
         steps.append({"do": "wait", "who": h})
     # later calls on the closed channel keep failing; the others keep working
-    for _ in range(rng.randrange(1, 4)):
+    nlater = rng.randrange(0, 4)
+    for _ in range(nlater):
         steps.append(op(victim, rng.choice(["qos", "declare", "publish", "purge_nowait"]), len=2, pid=5))
+    if nlater == 0 or rng.random() < 0.3:
+        # ... Channel::close - the documented way to learn how the channel ended - included, also as the very
+        # first call after the server's close
+        steps.append({"do": "close", "h": victim})
     for h in others:
         steps.append(op(h, rng.choice(SYNC_OPS)))
     steps.append({"do": "sync"})
@@ -782,9 +830,23 @@ def midframe_close(rng, i):
     steps.append(op("A", "publish", len=rng.choice([5000, 9000, 300] if k <= 100 else [5000, 9000]), pid=70 * i + 1))
     if rng.random() < 0.5:
         steps.append(op("B", "declare_nowait", q="behind"))
+    cfgx = {}
+    blocked_pub = False
+    if i % 10 == 6:
+        # more than 128 KiB accepted and unwritten when the server's close comes: CloseOk goes out behind all of it
+        for j in range(rng.randrange(3, 6)):
+            steps.append(op("B", "publish", len=rng.choice([60000, 100000]), pid=70 * i + 10 + j))
+    elif i % 10 == 8:
+        # a publisher that is BLOCKED on its full queue to the I/O thread (tiny high-water mark: the I/O thread has
+        # stopped listening to the channels) at the moment the server's close is handled
+        cfgx = {"high": 100, "low": 50, "bound": rng.choice([1, 2])}
+        for j in range(6):
+            steps.append(dict(op("B", "publish", len=3000, pid=70 * i + 20 + j), **{"async": True}))
+        steps.append({"do": "sleep", "ms": 30})
+        blocked_pub = True
     steps.append({"do": "budget_used"})
     hb = i % 10 == 3
-    what = "hbstall" if hb else rng.choice(["connclose", "connclose", "chclose", "none"])
+    what = "hbstall" if hb else ("connclose" if i % 10 in (6, 8) else rng.choice(["connclose", "connclose", "chclose", "none"]))
     if what == "hbstall":
         # heartbeats negotiated (1 s) and the stall lasts longer than the interval: the client's tx timer
         # fires while the head of its buffer is the rest of a half-written frame
@@ -799,10 +861,13 @@ def midframe_close(rng, i):
         steps.append({"do": "budget_used"})
     steps.append({"do": "budget", "n": None})
     steps.append({"do": "sync"})
+    if blocked_pub:
+        steps.append({"do": "wait", "who": "B"})
     steps.append(op("A", "qos"))
     steps.append(op("B", "qos"))
     steps.append({"do": "closeconn"})
     cfg = {"tune": [0, fm, 1], "heartbeat": 1} if hb else {"tune": [0, fm, 0]}
+    cfg.update(cfgx)
     return {"kind": "backlog-midframe", "cfg": cfg, "steps": steps}
 
 
@@ -1345,7 +1410,7 @@ def batches(rng, maxlen, bases, reps=1):
     return res
 
 
-FAMILIES = {"open_then_eof": open_then_eof, "pub_cancel": pub_cancel, "cancel_close_race": cancel_close_race, "close_window": close_window, "pressure": pressure, "midframe_close": midframe_close, "undrained": undrained, "connclose_cross": connclose_cross, "reply_then_close": reply_then_close, "chclose_cross": chclose_cross, "listener_split": listener_split, "mixed": mixed, "pubflags": pubflags, "backlog": backlog, "hb_silence": hb_silence, "listener_cross": listener_cross, "close_slow": close_slow, "consumer_drop": consumer_drop, "rpc": rpc, "content": content, "consumer": consumer, "listeners": listeners,
+FAMILIES = {"bigframe_seg": bigframe_seg, "open_then_eof": open_then_eof, "pub_cancel": pub_cancel, "cancel_close_race": cancel_close_race, "close_window": close_window, "pressure": pressure, "midframe_close": midframe_close, "undrained": undrained, "connclose_cross": connclose_cross, "reply_then_close": reply_then_close, "chclose_cross": chclose_cross, "listener_split": listener_split, "mixed": mixed, "pubflags": pubflags, "backlog": backlog, "hb_silence": hb_silence, "listener_cross": listener_cross, "close_slow": close_slow, "consumer_drop": consumer_drop, "rpc": rpc, "content": content, "consumer": consumer, "listeners": listeners,
             "connclose": connclose, "chanclose": chanclose}
 
 
